@@ -13,7 +13,9 @@ RULE = ("sched: 1-3 concurrent shows (1-6 steps; durations on the 125 ms grid gi
         "hits a show that is still running, or two shows share a light.  generic: one show with arbitrary "
         "millisecond durations and speeds such as 3 or 0.7 (float arithmetic not exact), many loops, oracle only.  "
         "player: the same through show_player events (play/stop/pause/resume/advance/step_back/update with keys), "
-        "oracle only")
+        "oracle only.  prio: show_player entries of two modes (priority 100 / 300) and of the machine config for three "
+        "shows sharing lights, triggered repeatedly at the same and at later instants, modes started and stopped; "
+        "non-trivial = an entry with a non-zero calling priority triggered at least twice; oracle only")
 TRUSTED_BASE = [
     "Coq 8.16.1 kernel (coqc), vm_compute for refutation witnesses and for evaluating the model in the correspondence run; no native_compute",
     "axioms: none (every Print Assumptions is 'Closed under the global context')",
@@ -142,8 +144,13 @@ def _boot():
     sys.path.insert(0, os.path.dirname(os.path.dirname(os.path.abspath(__file__))))
     from rig import Rig
     cfg = {"lights": {"l%d" % l: {"number": str(l), "subtype": "led", "type": "rgb"} for l in range(NLIGHTS)},
+           "shows": PRIO_SHOWS, "modes": sorted(PRIO_MODES),
            "show_player": player_config()}
-    rig = Rig(cfg).start()
+    modes = {name: {"mode": {"priority": mp, "game_mode": False, "start_events": "%s_start" % name, "stop_events": "%s_stop" % name},
+                    "show_player": {ev: {e["show"]: _entry_cfg(e)} for ev, e in PRIO_ENTRIES.items()
+                                    if e["mode"] == name}}
+             for name, mp in PRIO_MODES.items()}
+    rig = Rig(cfg, modes=modes).start()
     m = rig.machine
     log = _G.setdefault("log", [])
     _G.update(rig=rig, m=m, in_clear=False)
@@ -212,9 +219,51 @@ def _leave_case(running, names):
         _boot()
 
 
+# ---- static part of the machine used by the prio suite: shows in the machine config, two modes with their own
+# show_player sections, a machine-wide show_player section
+PRIO_SHOWS = {
+    "c17s_a": [{"duration": "250ms", "lights": {"l0": "ff0000", "l1": "ff0000"}},
+               {"duration": "250ms", "lights": {"l0": "00ff00"}},
+               {"duration": "500ms", "lights": {"l2": "00ff00"}}],
+    "c17s_b": [{"duration": "500ms", "lights": {"l0": "0000ff", "l2": "0000ff"}},
+               {"duration": "250ms", "lights": {"l1": "0000ff"}}],
+    "c17s_c": [{"duration": -1, "lights": {"l0": "ffff00", "l3": "ffff00"}}],
+}
+PRIO_MODES = {"c17m1": 100, "c17m2": 300}
+# event -> entry; mode None = machine-wide section.  ev: whether events_when_played/stopped are configured (then a
+# re-trigger always replaces the running show)
+PRIO_ENTRIES = {
+    "c17p_m1_a": {"mode": "c17m1", "show": "c17s_a", "priority": 2, "ev": False},
+    "c17p_m1_b": {"mode": "c17m1", "show": "c17s_b", "priority": 0, "ev": True},
+    "c17p_m1_c": {"mode": "c17m1", "show": "c17s_c", "priority": 50, "ev": False, "key": "kc"},
+    "c17p_m1_a_stop": {"mode": "c17m1", "show": "c17s_a", "action": "stop"},
+    "c17p_m2_a": {"mode": "c17m2", "show": "c17s_a", "priority": 5, "ev": False, "speed": 2},
+    "c17p_m2_c": {"mode": "c17m2", "show": "c17s_c", "priority": 1, "ev": False},
+    "c17p_m2_b_manual": {"mode": "c17m2", "show": "c17s_b", "priority": 3, "ev": False, "manual": True},
+    "c17p_g_b": {"mode": None, "show": "c17s_b", "priority": 7, "ev": False},
+    "c17p_g_a": {"mode": None, "show": "c17s_a", "priority": 150, "ev": True, "key": "ga"},
+}
+
+
+def _entry_cfg(e):
+    if e.get("action") == "stop":
+        return {"action": "stop"}
+    c = {"priority": e["priority"], "loops": -1}
+    if e.get("key"):
+        c["key"] = e["key"]
+    if e.get("speed"):
+        c["speed"] = e["speed"]
+    if e.get("manual"):
+        c["manual_advance"] = True
+    if e.get("ev"):
+        c["events_when_played"] = "c17prio_played"
+        c["events_when_stopped"] = "c17prio_stopped"
+    return c
+
+
 def player_config():
-    """show_player section used by the player suite: events c17p_<sid>_<action>[_<variant>]"""
-    return {}
+    """machine-wide show_player section (prio suite)"""
+    return {ev: {e["show"]: _entry_cfg(e)} for ev, e in PRIO_ENTRIES.items() if e["mode"] is None}
 
 
 def _us(t, base):
@@ -767,6 +816,225 @@ def oracle_player(case, out):
     return oracle_sched(case, out)
 
 
+# ------------------------------------------------------------------------------------------------
+# prio: show_player entries of modes (calling priority = mode priority) and of the machine config, triggered
+# repeatedly by their events; concurrent shows of different priorities on the same lights.  Oracle only.
+def gen_prio(rng, tier, i):
+    ops = []
+    t = 0
+    for name in sorted(PRIO_MODES):
+        if rng.random() < 0.9:
+            ops.append([t, "mode_start", name])
+    evs = sorted(PRIO_ENTRIES)
+    fav = rng.sample(evs, 2)
+    for _ in range(rng.choice([3, 5, 8, 12])):
+        # same instant (the running show is still on its first step), or later
+        t += rng.choice([0, 0, 1, 4, 8, 8, 12, 16, 40])
+        r = rng.random()
+        if r < 0.08:
+            ops.append([t, "mode_stop", rng.choice(sorted(PRIO_MODES))])
+        elif r < 0.14:
+            ops.append([t, "mode_start", rng.choice(sorted(PRIO_MODES))])
+        else:
+            ops.append([t, "trigger", rng.choice(fav) if rng.random() < 0.6 else rng.choice(evs)])
+    return {"ops": ops, "horizon": t + rng.choice([4, 16, 48])}
+
+
+def _canon(x):
+    if isinstance(x, dict):
+        return sorted(([repr(_canon(k)), _canon(v)] for k, v in x.items()), key=lambda kv: kv[0])
+    if isinstance(x, (list, tuple)):
+        return [_canon(v) for v in x]
+    if x is None or isinstance(x, (bool, int, float, str)):
+        return x
+    return [type(x).__name__, str(getattr(x, "name", "")), str(getattr(x, "text", ""))]
+
+
+def _prio_config_canon(m):
+    out = {"machine": _canon(m.config.get("show_player", {}))}
+    for name in PRIO_MODES:
+        out[name] = _canon(m.modes[name].config.get("show_player", {}))
+    return out
+
+
+def run_prio(case):
+    import json as _json
+    rig, m, log = _G["rig"], _G["m"], _G["log"]
+    now = rig.now()
+    base = (int(now) // 6 + 1) * 6.0
+    rig.advance(base - now)
+    for l in range(NLIGHTS):
+        m.lights["l%d" % l].clear_stack()
+    rig.advance(0)
+    sp = m.show_controller.show_players["shows"]
+    canon0 = _json.dumps(_prio_config_canon(m), sort_keys=True)
+    seen = {}            # show id -> [context, key, RunningShow]
+    recs = []
+    exc = None
+
+    def inst(ctx, key):
+        return sp.instances.get(ctx, {}).get("show_player", {}).get(key)
+
+    def scan():
+        for ctx, d in sp.instances.items():
+            if ctx == "_global" or ctx in PRIO_MODES:
+                for key, rs in d.get("show_player", {}).items():
+                    seen[rs.id] = [ctx, key, rs]
+
+    try:
+        for t, kind, arg in case["ops"]:
+            target = base + t / 32.0
+            if target > rig.now():
+                rig.advance(target - rig.now())
+            rec = {"t": t, "kind": kind, "arg": arg,
+                   "active": {name: bool(m.modes[name].active) for name in PRIO_MODES}}
+            if kind == "trigger":
+                e = PRIO_ENTRIES[arg]
+                ctx = e["mode"] or "_global"
+                key = e.get("key") or e["show"]
+                old = inst(ctx, key)
+                rec["before"] = None if old is None else [old.id, int(old.stopped), old.current_step_index]
+                rig.post(arg)
+                rig.advance(0)
+                new = inst(ctx, key)
+                rec["after"] = None if new is None else [new.id, int(new.stopped), new.show_config.priority]
+            elif kind == "mode_start":
+                rig.post("%s_start" % arg)
+                rig.advance(0)
+            else:
+                scan()
+                rig.post("%s_stop" % arg)
+                rig.advance(0)
+                rec["left"] = sorted(sp.instances.get(arg, {}).get("show_player", {}))
+            rig.advance(0)
+            scan()
+            rec["alive"] = sorted([sid, v[0], v[1], v[2].show_config.priority] for sid, v in seen.items()
+                                  if not v[2].stopped)
+            rec["stacks"] = [[[int(en.key.split(".")[0][5:]) if en.key.startswith("show_") else -1, en.priority]
+                              for en in m.lights["l%d" % l].stack] for l in range(NLIGHTS)]
+            rec["cfg_same"] = _json.dumps(_prio_config_canon(m), sort_keys=True) == canon0
+            recs.append(rec)
+        rig.advance(base + case["horizon"] / 32.0 - rig.now())
+    except Exception as ex:
+        exc = "%s: %s" % (type(ex).__name__, ex)
+    if rig._exception:
+        exc = "loop: %r" % (rig._exception,)
+        rig._exception = None
+    # leave: stop the modes and the machine-wide shows through the players' own API
+    try:
+        for name in PRIO_MODES:
+            rig.post("%s_stop" % name)
+        rig.advance(0)
+        sp.clear_context("_global")
+        rig.advance(0)
+    except Exception:
+        pass
+    end_stacks = [len(m.lights["l%d" % l].stack) for l in range(NLIGHTS)]
+    mutated = _json.dumps(_prio_config_canon(m), sort_keys=True) != canon0
+    _leave_case([], [])
+    if mutated:
+        # the shared config is damaged for good: do not let it leak into the next case of this worker
+        _G["rig"].stop()
+        _boot()
+    return {"recs": recs, "exc": exc, "end_stacks": end_stacks}
+
+
+def oracle_prio(case, out):
+    fails = []
+    if out.get("exc"):
+        return [{"sig": "exception", "what": "show_player raised: %s" % out["exc"]}]
+    expected = {}        # show id -> priority it must have
+    for rec in out["recs"]:
+        if not rec["cfg_same"] and not any(f["sig"] == "config-mutated" for f in fails):
+            fails.append({"sig": "config-mutated",
+                          "what": "the validated show_player config of the machine/mode changed after %s %s at tick %d"
+                                  % (rec["kind"], rec["arg"], rec["t"])})
+        if rec["kind"] == "trigger":
+            e = PRIO_ENTRIES[rec["arg"]]
+            active = e["mode"] is None or rec["active"][e["mode"]]
+            before, after = rec["before"], rec["after"]
+            if not active:
+                if before != (after[:2] + [before[2]] if after and before else after) and (before or after):
+                    if (before is None) != (after is None) or (before and after and before[0] != after[0]):
+                        fails.append({"sig": "inactive-mode-played", "what": "entry %s acted although its mode is "
+                                      "not active" % rec["arg"]})
+                continue
+            if e.get("action") == "stop":
+                if after is not None:
+                    fails.append({"sig": "stop-not-honoured", "what": "stop entry %s left an instance" % rec["arg"]})
+                continue
+            want = e["priority"] + (PRIO_MODES[e["mode"]] if e["mode"] else 0)
+            if after is None or after[1]:
+                fails.append({"sig": "not-playing", "what": "entry %s: no running show after its event" % rec["arg"]})
+                continue
+            if after[2] != want:
+                fails.append({"sig": "show-priority-wrong",
+                              "what": "entry %s (priority %d, calling priority %d): the running show has priority %d "
+                                      "after trigger at tick %d" % (rec["arg"], e["priority"], want - e["priority"],
+                                                                   after[2], rec["t"])})
+                break
+            expected[after[0]] = want
+            # re-trigger semantics of replace_or_advance_show on the unchanged tree: an identical running show is kept
+            # only while it is on its start step and no played/stopped events are configured; otherwise replaced
+            if before is not None and not before[1]:
+                keep = (not e.get("ev")) and before[2] == 0
+                if keep != (before[0] == after[0]):
+                    fails.append({"sig": "retrigger-semantics",
+                                  "what": "entry %s re-triggered while its show was on step index %s: %s, expected %s"
+                                          % (rec["arg"], before[2], "kept" if before[0] == after[0] else "replaced",
+                                             "kept" if keep else "replaced")})
+        elif rec["kind"] == "mode_stop":
+            if rec.get("left"):
+                fails.append({"sig": "context-left-after-mode-stop", "what": "mode %s stopped, show_player still holds %s"
+                              % (rec["arg"], rec["left"])})
+            if any(a[1] == rec["arg"] for a in rec["alive"]):
+                fails.append({"sig": "context-left-after-mode-stop", "what": "mode %s stopped, its shows still run"
+                              % rec["arg"]})
+        alive = {a[0]: a for a in rec["alive"]}
+        for l, st in enumerate(rec["stacks"]):
+            for owner, prio in st:
+                if owner not in alive:
+                    fails.append({"sig": "context-left-after-stop", "what": "light l%d holds an entry of show %d which "
+                                  "is not running (tick %d)" % (l, owner, rec["t"])})
+                elif owner in expected and prio != expected[owner]:
+                    fails.append({"sig": "stack-priority-wrong", "what": "light l%d: entry of show %d has priority %d, "
+                                  "the show must have %d" % (l, owner, prio, expected[owner])})
+            if [p for _, p in st] != sorted([p for _, p in st], reverse=True):
+                fails.append({"sig": "stack-order", "what": "light l%d stack is not ordered by priority: %s" % (l, st)})
+        if any(f["sig"] != "config-mutated" for f in fails):
+            break
+    if any(out["end_stacks"]):
+        fails.append({"sig": "context-left-after-stop", "what": "entries left on the light stacks after every mode and "
+                      "show was stopped: %s" % out["end_stacks"]})
+    return fails
+
+
+def shrink_prio(case):
+    ops = case["ops"]
+    for i in range(len(ops)):
+        yield {"ops": ops[:i] + ops[i + 1:], "horizon": case["horizon"]}
+    for i, o in enumerate(ops):
+        if o[0] > 0:
+            d = o[0] - (ops[i - 1][0] if i else 0)
+            if d > 0:
+                yield {"ops": ops[:i] + [[x[0] - d, x[1], x[2]] for x in ops[i:]], "horizon": case["horizon"] - d}
+
+
+def nontrivial_prio(case, out):
+    cnt = {}
+    for rec in out.get("recs", []):
+        if rec["kind"] == "trigger":
+            e = PRIO_ENTRIES[rec["arg"]]
+            if e["mode"] and rec["active"][e["mode"]] and e.get("action") != "stop":
+                cnt[rec["arg"]] = cnt.get(rec["arg"], 0) + 1
+    return any(v >= 2 for v in cnt.values())
+
+
+def describe_prio(case):
+    n = sum(1 for o in case["ops"] if o[1] == "trigger")
+    return "triggers=%s" % ("<=3" if n <= 3 else "4-8" if n <= 8 else ">8")
+
+
 SUITES = [
     Suite("sched", gen_sched, run_sched, HDR_SCHED, coq_sched, oracle_sched, shrink_sched, nontrivial_sched,
           {"quick": 1200, "thorough": 40000}, worker_init=sched_init, describe=describe_sched, shard=150),
@@ -774,6 +1042,8 @@ SUITES = [
           {"quick": 120, "thorough": 3000}, worker_init=sched_init),
     Suite("player", gen_player, run_player, None, None, oracle_player, shrink_sched, nontrivial_sched,
           {"quick": 400, "thorough": 10000}, worker_init=sched_init, describe=describe_sched),
+    Suite("prio", gen_prio, run_prio, None, None, oracle_prio, shrink_prio, nontrivial_prio,
+          {"quick": 400, "thorough": 10000}, worker_init=sched_init, describe=describe_prio),
 ]
 
 LEVEL_TEXT = ("Machine-checked proof (Coq) about an executable model of RunningShow, its control requests, the ownership "
